@@ -253,6 +253,19 @@ def string_codec(prog: Program, rep, rule="string-codec", with_nul_cut=True):
             rep.fail(rule, MOD, "BTSString.write", c, f"encode uses errors={norm(errs)}: text is altered instead of refused")
         else:
             rep.ok(rule, "BTSString.write: strict windows-1252")
+    # .. and no call site in the package asks the reader for another codec (a table comment decoded as utf-8 raises on cp1252 text)
+    n_sites = 0
+    for m in prog.modules.values():
+        for fn in [x for c_ in m.classes.values() for x in c_.all_funcs()] + list(m.functions.values()):
+            for c in walk_no_nested(fn.node):
+                if isinstance(c, ast.Call) and norm(c.func) in ("BTSString.bread", "BTSString.read"):
+                    n_sites += 1
+                    e_ = next((k.value for k in c.keywords if k.arg == "encoding"), c.args[2] if len(c.args) > 2 else None)
+                    if e_ is not None and not (fn.cls is cls and isinstance(e_, ast.Name)):
+                        if not (isinstance(e_, ast.Constant) and codec_of(e_) == wc):
+                            rep.fail(rule, m.path.name, fn.qualname, c, f"`{norm(c)[:60]}` decodes a field with {norm(e_)}, the writer encodes with {wc}: text using the differing code points comes back changed or makes the decode fail",
+                                     construct=f"{fn.qualname} decodes with {norm(e_)}")
+    rep.ok(rule, f"{n_sites} string decode call sites use the writer's codec")
     for mname in ("read", "bread"):
         f = prog.need_method(cls, mname)
         d = f.defaults().get("encoding")
